@@ -1,19 +1,17 @@
 SPECIFICATION Spec
 CONSTANTS
-  MaxTop = 3
-  MaxBlocks = 1
-  MaxSubs = 2
-  MaxStmts = 1
-  MaxNotes = 1
-  MaxDirs = 1
-  MaxNons = 1
-  WordCounts = {1}
-  GenBlockTypes = {"c"}
+  MaxTop = 40
+  MaxBlocks = 3
+  MaxSubs = 7
+  MaxStmts = 3
+  MaxNotes = 5
+  MaxDirs = 3
+  MaxNons = 2
+  WordCounts = {2, 5}
+  GenBlockTypes = {"b", "c", "i"}
   GenNoteKinds = {"title", "D", "R", "N", "E", "I", "M"}
   GenSubTypes = {"B", "C", "S", "T", "W"}
   Terse = FALSE
   Rich = FALSE
   Phased = TRUE
-INVARIANT WellFormed
-VIEW View
 CHECK_DEADLOCK FALSE
